@@ -126,6 +126,8 @@ def c20(tier):
     ts.ts7(P, C)
     ts.ts8(P, C)
     ts.ts9(P, C)
+    ts.ts10(P, C)
+    ts.ts10b(P, C)
     ts.ts4d(P, C)
     ts.ts3b(P, C)
     nl.nl1(P, C)
